@@ -21,7 +21,8 @@ import (
 	"verif/ref/refchain"
 )
 
-const minValue = 1000
+// minValue: AllBalances.MinValue currently in force (changed like a config reload while the index is off)
+var minValue uint64 = 1000
 
 type projEntry struct {
 	op refchain.OutPoint
@@ -297,6 +298,15 @@ func Child(seed int64, tier, stateFile string, rounds int, testnet bool) {
 			if !offer(g.RandomBlock(s.Ref.Tip, 5), "while-disabled") {
 				return
 			}
+			if r.Bool() {
+				// the configured minimum changes (config reload); switching the index off and on is how it gets applied
+				minValue = []uint64{600, 1000, 1300, 999, 1001}[r.Intn(5)]
+				common.LockCfg()
+				common.CFG.AllBalances.MinValue = minValue
+				common.UnlockCfg()
+				run.Inc("min_value_changed_while_index_off")
+				run.Distinct("min_values", minValue)
+			}
 			if !enable("re-enable") {
 				return
 			}
@@ -344,6 +354,10 @@ func Main() {
 		}
 		seed := run.Seed*1000 + int64(i)
 		var env []string
+		if i%4 == 1 {
+			env = []string{"VERIF_POISON_FREE=1"} // record life times as on the client's custom heap
+			run.Inc("histories_with_poison_on_free")
+		}
 		if i%4 >= 2 {
 			env = []string{"VERIF_PURGE=1"} // utxo.UTXO_PURGE_UNSPENDABLE, as a freshly configured client runs
 			run.Inc("histories_with_purge_unspendable")
